@@ -94,6 +94,16 @@ func init() {
 			s.expect(OK(ev), "deploy self-destructing contract 1 with value")
 			ev, k2 := s.Deploy(4, prog("suicide", nil), 0, "900", cgas)
 			s.expect(OK(ev), "deploy self-destructing contract 2 with value")
+			ev, k3 := s.Deploy(4, prog("suicide_caller", nil), 0, "300", cgas)
+			s.expect(OK(ev), "deploy self-destructing contract 3 with value")
+			ev, k4 := s.Deploy(4, prog("suicide", nil), 0, "0", cgas)
+			s.expect(OK(ev), "deploy self-destructing contract 4")
+			s.End()
+			s.Begin(allHdr)
+			// a plain transfer (not a contract-type transaction) whose receiver destroys itself while handling it
+			s.expect(OK(s.TransferTo(6, k3, "17", cgas)), "plain transfer to a contract that self-destructs to the caller")
+			s.expect(OK(s.TransferTo(5, k4, "19", cgas)), "plain transfer to a contract that self-destructs to itself")
+			s.expect(OK(s.Transfer(6, 5, "1")), "the sender's next nonce is usable")
 			s.End()
 			s.Begin(allHdr)
 			s.expect(OK(s.CallC(5, k1, word(s.R.KR.Addr(6)), "11", cgas)), "self-destruct to a beneficiary")
